@@ -712,8 +712,14 @@ reprocess:
 
 #define MINI_FORMAT_STR_LEN 20
 
+/* every read from buf stays below buf_len, every write to string below str_len */
+#define DS_NEED(n) do { if ((size_t)data_pos + (n) > buf_len) goto truncated; } while (0)
+#define DS_FMT_ROOM() do { if (fmt_pos + 2 >= MINI_FORMAT_STR_LEN) goto truncated; } while (0)
+#define DS_ADVANCE(call) do { int n_ = (call); if (n_ < 0) goto truncated; \
+	location += n_; if (location >= str_len) { location = str_len - 1; goto truncated; } } while (0)
+
 size_t
-qb_vsnprintf_deserialize(char *string, size_t str_len, const char *buf)
+qb_vsnprintf_deserialize_n(char *string, size_t str_len, const char *buf, size_t buf_len)
 {
 	char *p;
 	char *format;
@@ -721,12 +727,21 @@ qb_vsnprintf_deserialize(char *string, size_t str_len, const char *buf)
 	int fmt_pos;
 
 	uint32_t location = 0;
-	uint32_t data_pos = strlen(buf) + 1;
+	uint32_t data_pos;
+	const char *fmt_end;
 	int type_long = QB_FALSE;
 	int type_longlong = QB_FALSE;
 	int len;
 
+	if (str_len == 0) {
+		return 0;
+	}
 	string[0] = '\0';
+	fmt_end = memchr(buf, '\0', buf_len);
+	if (fmt_end == NULL) {
+		return 1;	/* no terminated format string */
+	}
+	data_pos = (fmt_end - buf) + 1;
 	format = (char *)buf;
 	for (;;) {
 		type_long = QB_FALSE;
@@ -737,8 +752,15 @@ qb_vsnprintf_deserialize(char *string, size_t str_len, const char *buf)
 		}
 		/* copy from current to the next % */
 		len = p - format;
+		if (location + len >= str_len) {
+			len = str_len - 1 - location;
+			memcpy(&string[location], format, len);
+			location += len;
+			goto truncated;
+		}
 		memcpy(&string[location], format, len);
 		location += len;
+		string[location] = '\0';
 		format = p;
 
 		/* start building up the format for snprintf */
@@ -764,21 +786,30 @@ reprocess:
 		case '7': /* field width, ignore */
 		case '8': /* field width, ignore */
 		case '9': /* field width, ignore */
+			DS_FMT_ROOM();
 			fmt[fmt_pos++] = *format;
 			format++;
 			goto reprocess;
 
 		case '*': {
 			int arg_int;
+			int n_w;
+			DS_NEED(sizeof(int));
+			DS_NEED(sizeof(int));
 			memcpy(&arg_int, &buf[data_pos], sizeof(int));
 			data_pos += sizeof(int);
-			fmt_pos += snprintf(&fmt[fmt_pos],
-					   MINI_FORMAT_STR_LEN - fmt_pos,
-					   "%d", arg_int);
+			n_w = snprintf(&fmt[fmt_pos],
+				       MINI_FORMAT_STR_LEN - fmt_pos,
+				       "%d", arg_int);
+			if (n_w < 0 || fmt_pos + n_w + 2 >= MINI_FORMAT_STR_LEN) {
+				goto truncated;
+			}
+			fmt_pos += n_w;
 			format++;
 			goto reprocess;
 		}
 		case 'l':
+			DS_FMT_ROOM();
 			fmt[fmt_pos++] = *format;
 			format++;
 			type_long = QB_TRUE;
@@ -788,6 +819,7 @@ reprocess:
 			}
 			goto reprocess;
 		case 'z':
+			DS_FMT_ROOM();
 			fmt[fmt_pos++] = *format;
 			format++;
 			if (sizeof(size_t) == sizeof(long long)) {
@@ -799,6 +831,7 @@ reprocess:
 			}
 			goto reprocess;
 		case 't':
+			DS_FMT_ROOM();
 			fmt[fmt_pos++] = *format;
 			format++;
 			if (sizeof(ptrdiff_t) == sizeof(long long)) {
@@ -808,6 +841,7 @@ reprocess:
 			}
 			goto reprocess;
 		case 'j':
+			DS_FMT_ROOM();
 			fmt[fmt_pos++] = *format;
 			format++;
 			if (sizeof(intmax_t) == sizeof(long long)) {
@@ -825,36 +859,36 @@ reprocess:
 			if (type_long) {
 				long int arg_int;
 
+				DS_FMT_ROOM();
 				fmt[fmt_pos++] = *format;
 				fmt[fmt_pos++] = '\0';
+				DS_NEED(sizeof(long int));
 				memcpy(&arg_int, &buf[data_pos], sizeof(long int));
-				location += snprintf(&string[location],
-						     str_len - location,
-						     fmt, arg_int);
+				DS_ADVANCE(snprintf(&string[location], str_len - location, fmt, arg_int));
 				data_pos += sizeof(long int);
 				format++;
 				break;
 			} else if (type_longlong) {
 				long long int arg_int;
 
+				DS_FMT_ROOM();
 				fmt[fmt_pos++] = *format;
 				fmt[fmt_pos++] = '\0';
+				DS_NEED(sizeof(long long int));
 				memcpy(&arg_int, &buf[data_pos], sizeof(long long int));
-				location += snprintf(&string[location],
-						     str_len - location,
-						     fmt, arg_int);
+				DS_ADVANCE(snprintf(&string[location], str_len - location, fmt, arg_int));
 				data_pos += sizeof(long long int);
 				format++;
 				break;
 			} else {
 				int arg_int;
 
+				DS_FMT_ROOM();
 				fmt[fmt_pos++] = *format;
 				fmt[fmt_pos++] = '\0';
+				DS_NEED(sizeof(int));
 				memcpy(&arg_int, &buf[data_pos], sizeof(int));
-				location += snprintf(&string[location],
-						     str_len - location,
-						     fmt, arg_int);
+				DS_ADVANCE(snprintf(&string[location], str_len - location, fmt, arg_int));
 				data_pos += sizeof(int);
 				format++;
 				break;
@@ -870,12 +904,12 @@ reprocess:
 			{
 			double arg_double;
 
+			DS_FMT_ROOM();
 			fmt[fmt_pos++] = *format;
 			fmt[fmt_pos++] = '\0';
+			DS_NEED(sizeof(double));
 			memcpy(&arg_double, &buf[data_pos], sizeof(double));
-			location += snprintf(&string[location],
-					     str_len - location,
-					     fmt, arg_double);
+			DS_ADVANCE(snprintf(&string[location], str_len - location, fmt, arg_double));
 			data_pos += sizeof(double);
 			format++;
 			break;
@@ -884,24 +918,30 @@ reprocess:
 			{
 			unsigned char *arg_char;
 
+			DS_FMT_ROOM();
 			fmt[fmt_pos++] = *format;
 			fmt[fmt_pos++] = '\0';
+			DS_NEED(1);
 			arg_char = (unsigned char*)&buf[data_pos];
-			location += snprintf(&string[location],
-					     str_len - location,
-					     fmt, *arg_char);
+			DS_ADVANCE(snprintf(&string[location], str_len - location, fmt, *arg_char));
 			data_pos += sizeof(unsigned char);
 			format++;
 			break;
 			}
 		case 's':
 			{
+			DS_FMT_ROOM();
 			fmt[fmt_pos++] = *format;
 			fmt[fmt_pos++] = '\0';
-			len = snprintf(&string[location],
-				       str_len - location,
-				       fmt, &buf[data_pos]);
-			location += len;
+			if (type_long || type_longlong) {
+				goto truncated;	/* "%ls" would read wide characters */
+			}
+			if (data_pos >= buf_len ||
+			    memchr(&buf[data_pos], '\0', buf_len - data_pos) == NULL) {
+				goto truncated;	/* string argument is not terminated */
+			}
+			DS_ADVANCE(snprintf(&string[location], str_len - location,
+					    fmt, &buf[data_pos]));
 			/* don't use len as there might be a len modifier */
 			data_pos += strlen(&buf[data_pos]) + 1;
 			format++;
@@ -910,18 +950,20 @@ reprocess:
 		case 'p':
 			{
 			ptrdiff_t pt;
-			memcpy(&pt, &buf[data_pos],
-			       sizeof(ptrdiff_t));
+			DS_NEED(sizeof(ptrdiff_t));
+			memcpy(&pt, &buf[data_pos], sizeof(ptrdiff_t));
+			DS_FMT_ROOM();
 			fmt[fmt_pos++] = *format;
 			fmt[fmt_pos++] = '\0';
-			location += snprintf(&string[location],
-					     str_len - location,
-					     fmt, pt);
+			DS_ADVANCE(snprintf(&string[location], str_len - location, fmt, pt));
 			data_pos += sizeof(void*);
 			format++;
 			break;
 			}
 		case '%':
+			if (location + 1 >= str_len) {
+				goto truncated;
+			}
 			string[location++] = '%';
 			string[location] = '\0';
 			format++;
@@ -929,6 +971,14 @@ reprocess:
 
 		}
 	}
-	return location;
+truncated:
+	string[QB_MIN(location, str_len - 1)] = '\0';
+	return strlen(string) + 1;
+}
+
+size_t
+qb_vsnprintf_deserialize(char *string, size_t str_len, const char *buf)
+{
+	return qb_vsnprintf_deserialize_n(string, str_len, buf, SIZE_MAX);
 }
 
